@@ -41,6 +41,85 @@ def _has_slice(prov):
     return False
 
 
+# The lines a container hands to the nested tokenizer, for one source text of every class of the specification's
+# rules for the container's own syntax (CommonMark 0.30, 5.1 block quote marker; 5.2 list item content, blank lines
+# and laziness). (reader, source lines, the buffer the nested tokenizer must get, lines left for the caller)
+CONTENT_ROWS = [
+    # block quote marker: '>' with an optional following space, after 0-3 spaces of indentation
+    ('Quote', ['> a\n'], ['a\n'], 0), ('Quote', ['>a\n'], ['a\n'], 0), ('Quote', ['>  a\n'], [' a\n'], 0),
+    ('Quote', ['   > a\n'], ['a\n'], 0), ('Quote', ['>\n'], ['\n'], 0), ('Quote', ['> \n'], ['\n'], 0),
+    ('Quote', ['> a\n', '> b\n'], ['a\n', 'b\n'], 0), ('Quote', ['> a\n', '>b\n'], ['a\n', 'b\n'], 0),
+    ('Quote', ['> a\n', '>\n', '> b\n'], ['a\n', '\n', 'b\n'], 0),         # a bare marker is a blank line of the content
+    ('Quote', ['> a\n', '>  b\n'], ['a\n', ' b\n'], 0),
+    ('Quote', ['> a\n', 'b\n'], ['a\n', 'b\n'], 0),                          # lazy continuation
+    ('Quote', ['> a\n', '\n', '> b\n'], ['a\n'], 2),                         # a blank line ends the quote
+    ('Quote', ['>\n', 'b\n'], ['\n'], 1),                                     # no laziness after a blank content line
+    # list item content: continuation lines indented to the content column; blank lines belong to the item when
+    # indented content follows; an unindented line continues a paragraph lazily, but not after a blank line
+    ('ListItem', ['- a\n'], ['a\n'], 0), ('ListItem', ['- a\n', '  b\n'], ['a\n', 'b\n'], 0),
+    ('ListItem', ['- a\n', '    b\n'], ['a\n', '  b\n'], 0),
+    ('ListItem', ['- a\n', '\n', '  b\n'], ['a\n', '\n', 'b\n'], 0),
+    ('ListItem', ['- a\n', '\n', '\n', '  b\n'], ['a\n', '\n', '\n', 'b\n'], 0),
+    ('ListItem', ['- a\n', '  \n', '  b\n'], ['a\n', '\n', 'b\n'], 0),
+    ('ListItem', ['- a\n', 'b\n'], ['a\n', 'b\n'], 0),
+    ('ListItem', ['- a\n', '\n', 'b\n'], ['a\n'], 2),
+    ('ListItem', ['- a\n', '\n', '\n', 'b\n'], ['a\n'], (2, 3)),   # at least one blank line is handed back
+    ('ListItem', ['1. a\n', '   b\n'], ['a\n', 'b\n'], 0),
+    ('ListItem', ['-   a\n', '    b\n'], ['a\n', 'b\n'], 0),
+    ('ListItem', ['-\n', '  a\n'], ['a\n'], 0),
+    ('ListItem', ['- a\n', '- b\n'], ['a\n'], 1),
+    ('ListItem', ['- a\n', '\n', '- b\n'], ['a\n', '\n'], 1),
+]
+
+
+def rule_content_rows(ctx, rep):
+    """The container readers, folded on one source text of every class of the specification's rules for markers,
+    continuation, blank lines and laziness (CONTENT_ROWS): the buffer handed to the nested tokenizer must be the
+    content as the specification defines it, and the lines after it must be left for the caller."""
+    model = ctx.model
+    rule = 'R-CONTENT-ROWS'
+    rep.rule(rule, 'container readers hand the nested tokenizer exactly the content lines the specification defines (table of line classes)')
+    fw = model.cls('block_tokenizer.FileWrapper')
+    tb = model.func('block_tokenizer.tokenize_block')
+    bad = {}
+    n = 0
+    for cname, lines, want, left in CONTENT_ROWS:
+        cls = model.cls('block_token.' + cname)
+        rd = cls.lookup('read')[1]
+        rep.instance(rule)
+        it = Interp(model, loop_bound=16, while_bound=16)
+        it.reset_run(Oracle())
+        got = []
+
+        def h(interp, fi, args, kwargs, got=got):
+            got.append(list(args[0]) if isinstance(args[0], list) else args[0])
+            return tk.BlockBuffer(list(args), dict(kwargs))
+        it.func_hooks[tb.qualname] = h
+        w = it.construct(fw, [list(lines)], {})
+        try:
+            it.call(it.getattr(cls, 'read'), [w], {})
+            consumed = it.call(it.getattr(w, 'line_number'), [], {})
+            start = w.attrs.get('start_line', 1)
+            remaining = len(lines) - (consumed - start + 1) if isinstance(consumed, int) and isinstance(start, int) else None
+            res = (got[-1] if got else None, remaining)
+        except Raised as r:
+            res = ('raises %s' % r.exc.kind, None)
+        n += 1
+        ok = res[0] == want and (res[1] in left if isinstance(left, tuple) else res[1] == left)
+        rep.obligation(rule, ok, {'reader': cname, 'source': lines, 'content': res[0], 'left for the caller': res[1],
+                                  'specification': [want, left]})
+        if not ok:
+            bad.setdefault(cname, []).append((lines, res, want, left, rd))
+    for cname, rows in sorted(bad.items()):
+        lines, res, want, left, rd = rows[0]
+        rep.find(rule, rd.short, 'row:%s' % ''.join(lines).replace('\n', '|'),
+                 'on the source %r %s hands the nested tokenizer %r and leaves %r line(s) to its caller; the specification\'s '
+                 'content is %r with %s line(s) left (%d row(s) of the table differ for this reader)'
+                 % (''.join(lines), rd.short, res[0], res[1], want, left, len(rows)),
+                 loc(model.unit_of(rd), rd.node), witness=''.join(lines))
+    rep.floor(rule, n, 25)
+
+
 def rule_strip_provenance(ctx, rep):
     """Marker stripping in the quote reader: every element of the buffer handed to the nested tokenizer is
     either the source line itself (lazy continuation: whitespace preserved) or the source line with its
@@ -304,6 +383,7 @@ def run(ctx):
             rep.note('%s: path limit reached' % rd.short)
     rep.floor('R-NEST-SAME', n_calls, 10)
     rule_strip_provenance(ctx, rep)
+    rule_content_rows(ctx, rep)
     rule_marker_arith(ctx, rep)
     # "recursive tokenization of the stripped lines with the parent's start line": the line bookkeeping of the
     # nested calls and of what the nested tokenizer builds from it is shared with C13
